@@ -52,7 +52,7 @@ def counter_clauses(h, pfx, F, counter, en, rst):
     h.hint(pfx + "counter=ph", C == ph)
     h.ensure(pfx + "ens.phase", C == ph)                                                            # counter IS the frame position
 
-def channel_clauses(h, pfx, F, en, width, outn, track_period=True):
+def channel_clauses(h, pfx, F, en, width, outn, track_period=True, reprog=True):
     """one output against the frame position: exact phase, idle, per-frame high count (held and reprogrammed configuration)"""
     ph, ph_n, run, wrap, period = F["ph"], F["ph_n"], F["run"], F["wrap"], F["period"]
     high = z3.And(en, z3.ULT(ph, width))
@@ -75,6 +75,7 @@ def channel_clauses(h, pfx, F, en, width, outn, track_period=True):
     total = acc + z(outn)                                                                           # high cycles of the whole frame, known at its last position
     h.ensure(pfx + "ens.frame.high", z3.Implies(z3.And(wrap, held, z3.UGE(period, K(1, 32))), total == umin(z(width), z(period))))
     h.ensure(pfx + "ens.frame.length", z3.Implies(z3.And(wrap, held, z3.UGE(period, K(1, 32))), z(ph) + 1 == z(period)))
+    if not reprog: return dict(acc=acc, total=total, held=held, st=st, gw=gw, gp=gp)
     # reprogramming inside a frame: running extrema of the values seen at the positions 0..ph-1
     wmx = h.ghost(pfx + "wmx", 32); wmn = h.ghost(pfx + "wmn", 32); eall = h.ghost(pfx + "eall", 1)
     h.ghost_next(wmx, z3.If(first, width, umax(wmx, width))); h.ghost_next(wmn, z3.If(first, width, umin(wmn, width)))
@@ -99,11 +100,35 @@ def channel_clauses(h, pfx, F, en, width, outn, track_period=True):
 def t0_ghost(h):
     t0 = h.ghost("t0", 1, init=1); h.ghost_next(t0, ZERO); return b(t0)
 
+def _domain_to_sys(d, cd):
+    """the real simulator harness of vf.hw drives its stimulus from the `sys` domain: a core built for clock domain `cd` is renamed to `sys`
+    AFTER its fragment has been built; returns a thunk giving the domains the constructor really used (checked as an obligation)"""
+    seen = {}
+    class _R(ClockDomainsRenamer):
+        def transform_fragment(self, i, f):
+            seen["sync"] = sorted(k for k, v in f.sync.items() if v)
+            seen["specials"] = sorted({getattr(sp, "odomain", None) for sp in f.specials if hasattr(sp, "odomain")})
+            ClockDomainsRenamer.transform_fragment(self, i, f)
+    _R({cd: "sys"})(d)
+    return seen
+
+def _domain_result(h, seen, cd, specials):
+    ok = seen.get("sync") == [cd]
+    h.results.append(res("ens.struct.core-clock-domain", "ensures", PROVED if ok else VIOLATED, 0.0, "python(fragment)", info=f"sync domains {seen.get('sync')}, expected {cd}"))
+    if specials:
+        ok = seen.get("specials") == [cd]
+        h.results.append(res("finding.struct.synchroniser-clock-domain", "finding-witness", PROVED if ok else VIOLATED, 0.0, "python(fragment)",
+                             info=f"MultiReg output domains {seen.get('specials')}, expected {cd}",
+                             what="PWM(clock_domain != 'sys'): the CSR -> core synchronisers are MultiReg(..., n=2) without odomain, i.e. clocked by sys (the SOURCE domain): "
+                                  "enable/width/period reach the PWM-domain counter and output register unsynchronised"))
+
 # ------------------------------------------------------------------------------------------------ PWM: direct-signal variant
 def c_pwm_direct(clock_domain="sys"):
     """no assumption at all: enable, width, period and reset are free in every cycle"""
     d = mk(PWM, None, clock_domain, None, False)
-    h = HwCheck(f"PWM.direct({clock_domain})", d, [d.enable, d.width, d.period, d.reset], clock=clock_domain)
+    seen = _domain_to_sys(d, clock_domain) if clock_domain != "sys" else None
+    h = HwCheck(f"PWM.direct({clock_domain})", d, [d.enable, d.width, d.period, d.reset])
+    if seen is not None: _domain_result(h, seen, clock_domain, False)
     V = h.v; en, rst = b(V(d.enable)), b(V(d.reset))
     F = frame_ghost(h, "", z3.And(en, z3.Not(rst)), V(d.period))
     counter_clauses(h, "", F, d.counter, en, rst)
@@ -120,7 +145,7 @@ def c_pwm_direct(clock_domain="sys"):
               "PWM with period 0 (the reset default) and enable: the simulated design holds the frame position at 0 and drives the output high in "
               "every cycle as soon as width > 0 (a 100 % duty cycle for a zero-length period; the emitted Verilog compares against period-1 = 2^32-1 "
               "instead and produces a 2^32-cycle frame)")
-    h.bmc_depth = 10
+    h.bmc_depth = 10; h.timeout_ms = max(h.timeout_ms, 180000)
     h.functions = ["litex.soc.cores.pwm.PWM.__init__"]
     return h
 
@@ -152,7 +177,7 @@ def c_pwm_two_periods(po=None, pn=None):
         else: h.cover("cover.run", run, depth=2)
     else:
         h.cover("cover.long-frame", z3.And(F["wrap"], F["ph"] == K(4, 32), cpo == K(2, 32), cpn == K(5, 32)), depth=8)
-    h.bmc_depth = 10
+    h.bmc_depth = 10; h.timeout_ms = max(h.timeout_ms, 180000)
     h.functions = ["litex.soc.cores.pwm.PWM.__init__"]
     return h
 
@@ -196,7 +221,7 @@ def c_pwm_csr(de=1, dw=3, dp=8):
         h.hint("idle-until-written", z3.Implies(b(nowr), z3.And(V(p._enable.storage) == K(de, 1), V(p.pwm) == ZERO, V(p.counter) == K(0, 32))))
         h.ensure("ens.idle-until-written", z3.Implies(b(nowr), z3.And(V(p.pwm) == ZERO, V(p.counter) == K(0, 32))))   # default enable 0: silent until software writes
     h.cover("cover.programmed-frame", z3.And(z3.Not(b(nowr)), F["wrap"], G["held"], V(p.period) == K(4, 32), V(p.width) == K(1, 32), G["total"] == K(1, W)), depth=12)
-    h.bmc_depth = 12
+    h.bmc_depth = 12; h.timeout_ms = max(h.timeout_ms, 180000)
     h.functions = ["litex.soc.cores.pwm.PWM.__init__", "litex.soc.cores.pwm.PWM.add_csr", "litex.soc.cores.pwm.PWM.add_enable_width_csr", "litex.soc.cores.pwm.PWM.add_period_csr",
                    "litex.soc.interconnect.csr_bus.CSRBank (flattened)"]
     return h
@@ -205,8 +230,10 @@ def c_pwm_csr_cd():
     """clock_domain != sys: the CSR values reach the core through two-register synchronisers in the PWM domain (CSR side abstracted:
     the three storages are free inputs; single-clock model of the PWM domain)"""
     d = mk(PWM, None, "pwm", None, True)
+    seen = _domain_to_sys(d, "pwm")
     st = [d._enable.storage, d._width.storage, d._period.storage]
-    h = HwCheck("PWM.csr(clock_domain=pwm)", d, st + [d.reset], clock="pwm")
+    h = HwCheck("PWM.csr(clock_domain=pwm)", d, st + [d.reset])
+    _domain_result(h, seen, "pwm", True)
     V = h.v; en, rst = b(V(d.enable)), b(V(d.reset))
     F = frame_ghost(h, "", z3.And(en, z3.Not(rst)), V(d.period))
     counter_clauses(h, "", F, d.counter, en, rst)
@@ -218,12 +245,12 @@ def c_pwm_csr_cd():
         for r in regs:                                                                              # synchroniser stages (whatever they are called)
             h.hint(f"s1:{nm}:{r.duid}", V(r) == p1); h.hint(f"s2:{nm}:{r.duid}", V(r) == p2)
     h.cover("cover.high", z3.And(b(V(d.pwm)), F["ph"] == K(2, 32)), depth=8)
-    h.bmc_depth = 10
+    h.bmc_depth = 10; h.timeout_ms = max(h.timeout_ms, 180000)
     h.functions = ["litex.soc.cores.pwm.PWM.__init__ (clock_domain != sys)", "litex.soc.cores.pwm.PWM.add_enable_width_csr", "litex.soc.cores.pwm.PWM.add_period_csr"]
     return h
 
 # ------------------------------------------------------------------------------------------------ MultiChannelPWM
-def c_multichannel(n=2):
+def c_multichannel(n=2, full=False):
     class Top(LiteXModule):
         def __init__(self):
             self.pads = Signal(n)
@@ -239,7 +266,7 @@ def c_multichannel(n=2):
     counter_clauses(h, "ch0.", F, c0.counter, en[0], rst)
     padn = h.n(d.pads)
     for k, c in enumerate(ch):
-        channel_clauses(h, f"ch{k}.", F, en[k], V(c.width), z3.Extract(k, k, padn), track_period=(k == 0))
+        channel_clauses(h, f"ch{k}.", F, en[k], V(c.width), z3.Extract(k, k, padn), track_period=(full and k == 0), reprog=(full and k == 0))
         h.ensure(f"ch{k}.ens.csr.wiring", z3.And(V(c.enable) == V(c._enable.storage), V(c.width) == V(c._width.storage)))
         _storage_clauses(h, d, f"ch{k}.ens.csr.enable", c._enable, 1); _storage_clauses(h, d, f"ch{k}.ens.csr.width", c._width, 32)
     h.ensure("ens.csr.period.wiring", period == V(c0._period.storage)); _storage_clauses(h, d, "ens.csr.period", c0._period, 32)
@@ -255,7 +282,7 @@ def c_multichannel(n=2):
     h.ensure("ens.reset-state", z3.Implies(first, z3.And(V(d.pads) == K(0, n), C == K(0, 32), *[z3.Not(e) for e in en])))
     both = z3.And(F["wrap"], F["ph"] == K(3, 32), period == K(4, 32), V(ch[0].width) == K(1, 32), V(ch[1].width) == K(3, 32))
     h.cover("cover.two-duties", z3.And(both, h.ghosts["ch0.acc"][0] + z(z3.Extract(0, 0, padn)) == K(1, W), h.ghosts["ch1.acc"][0] + z(z3.Extract(1, 1, padn)) == K(3, W)), depth=14)
-    h.bmc_depth = 12
+    h.bmc_depth = 12; h.timeout_ms = max(h.timeout_ms, 180000)
     h.functions = ["litex.soc.cores.pwm.MultiChannelPWM.__init__", "litex.soc.cores.pwm.PWM.__init__ (external counter)", "litex.soc.cores.pwm.PWM.add_enable_width_csr",
                    "litex.soc.cores.pwm.PWM.add_period_csr", "litex.soc.interconnect.csr_bus.CSRBank (flattened)"]
     return h
@@ -286,8 +313,9 @@ def c_watchdog_opts(width=8, delay=3, with_halt=True, stale=False):
         c = h.ghost("waited", GW)                                                                   # consecutive cycles of enable & execute & reset_mode so far (saturating at delay)
         h.ghost_next(c, z3.If(wait, z3.If(uge(c, delay), c, c + 1), K(0, GW)))
         h.hint("waited<=delay", ule(c, delay))
-        for s in h.ts.state:
-            if s.nbits <= GW and s is not w.execute and s.nbits == max(1, delay.bit_length()): h.hint(f"cnt:{s.duid}", zx(V(s), GW) + c == K(delay, GW))
+        cnt = L(w.reset_timer, "count")
+        cands = [cnt] if cnt is not None and cnt in h.ts.var else [s for s in h.ts.state if s.nbits == max(1, delay.bit_length()) and s.reset.value == delay]
+        for s in cands: h.hint(f"cnt:{s.duid}", zx(V(s), GW) + c == K(delay, GW))                   # WaitTimer count register (whatever it is called)
         pw = h.prev("wait", bv1(wait))
         if delay >= 1:
             h.ensure("ens.reset.delay", b(V(d.rst)) == uge(c, delay))                               # SoC reset exactly after reset_delay consecutive time-out cycles
@@ -328,7 +356,6 @@ def c_timer_periodic(width=8):
     h.ghost_next(per, z3.If(z3.Not(en), ZERO, z3.If(zero, ONE, per)))
     h.ghost_next(gr, z3.If(z3.And(en, zero), V(t._reload.storage), gr))
     h.ghost_next(k, z3.If(z3.And(en, zero), K(0, GW), z3.If(z3.ULT(k, K((1 << width), GW)), k + 1, k)))
-    h.hint("per->en", z3.Implies(b(per), en))
     h.hint("periodic", z3.Implies(b(per), z3.And(zx(X, GW) + k == zx(gr, GW), z3.ULE(k, zx(gr, GW)))))
     # exact spacing of the zero events (what the code does): the count is zero again exactly greload cycles after the reload cycle,
     # i.e. consecutive events are greload + 1 cycles apart
@@ -363,7 +390,7 @@ def cases(tier):
           Case("Watchdog(8,reset_delay=0)", c_watchdog_opts, 8, 0, True, False),
           Case("Timer(8).periodic+uptime", c_timer_periodic, 8)]
     if tier == "thorough":
-        cs += [Case("MultiChannelPWM(3)", c_multichannel, 3), Case("PWM.csr(1,9,4)", c_pwm_csr, 1, 9, 4), Case("PWM.direct(period in {1,7})", c_pwm_two_periods, 1, 7),
+        cs += [Case("MultiChannelPWM(3)", c_multichannel, 3), Case("MultiChannelPWM(2,reprogramming clauses)", c_multichannel, 2, True), Case("PWM.csr(1,9,4)", c_pwm_csr, 1, 9, 4), Case("PWM.direct(period in {1,7})", c_pwm_two_periods, 1, 7),
                Case("Watchdog(32,reset_delay=100)", c_watchdog_opts, 32, 100, True, False), Case("Timer(32).periodic+uptime", c_timer_periodic, 32)]
     return cs
 
